@@ -47,6 +47,10 @@ def main():
         c = sh(["/venv/bin/python", demo], env=env, cwd=scratch, timeout=900)
         meta["demo_clean_exit"] = c.returncode
         a = sh(["git", "apply", os.path.join(src, "patch.diff")], cwd=scratch)
+        if a.returncode != 0:
+            # written against an earlier /repo HEAD (a later fix: commit moved the context lines): apply with fuzz
+            a = sh(["patch", "-p1", "-i", os.path.join(src, "patch.diff")], cwd=scratch)
+            meta["applied_with_fuzz"] = a.returncode == 0
         meta["patch_applies"] = a.returncode == 0
         if a.returncode != 0:
             print("patch does not apply:", a.stderr[:500])
